@@ -27,6 +27,20 @@ Proof.
   split; [|split]; eexists; (split; [vm_compute; reflexivity|vm_compute; reflexivity]).
 Qed.
 
+(* regression vector of the repaired defect new_compressor_unused_slot_debug_assert
+   (unused slots carry hash 0 and parent 0, both also a possible label hash and a
+   possible parent index): a.com, then 1rr.com - `com` hits slot 0, the rest `1rr`
+   hashes to 0 and is looked up under parent 0; the unused slots are now skipped *)
+Example compressor_unused_slot_regression :
+  exists c, c19_build 0 [[1;97;3;99;111;109;0]; [3;49;114;114;3;99;111;109;0]] = Ok c /\
+            new_split c 7 = Ok ([3;49;114;114;3;99;111;109;0], len c).
+Proof. eexists. split; vm_compute; reflexivity. Qed.
+
+(* the hash (SEED1, SEED2, M, >> 48 from T1): the label `1rr` hashes to 0; the
+   harness confirms this on the real code through the unused-slot case *)
+Example hash_zero_label : hash_label [3;49;114;114] = 0 /\ hash_label [3;99;111;109] <> 0.
+Proof. vm_compute. split; [reflexivity|discriminate]. Qed.
+
 (* non-vacuity of the model: the crate's own test vectors (compressor.rs tests) *)
 Example compressor_examples :
   let ex_org := [7;101;120;97;109;112;108;101;3;111;114;103;0] in
